@@ -406,3 +406,10 @@ func (c *Chain) SuggestGasPrice(context.Context) (*big.Int, error)              
 func (c *Chain) SuggestGasTipCap(context.Context) (*big.Int, error)             { return big.NewInt(1), nil }
 func (c *Chain) EstimateGas(context.Context, ethereum.CallMsg) (uint64, error)  { return 21000, nil }
 func (c *Chain) SendTransaction(context.Context, *types.Transaction) error      { return errUnsupported }
+
+// HeaderTime returns the timestamp of block n.
+func (c *Chain) HeaderTime(n uint64) uint64 {
+	c.mu.Lock()
+	defer c.mu.Unlock()
+	return c.headers[n].Time
+}
